@@ -21,6 +21,7 @@ type cssSheetGen struct {
 	units  []CSSUnit
 	budget int
 	inline bool
+	attrWS bool // whitespace may be generated inside attribute selectors (top-level selectors only)
 }
 
 func (g *cssSheetGen) w(s string) { g.sb.WriteString(s) }
@@ -190,6 +191,12 @@ func (g *cssSheetGen) compound(nestedStart bool) (string, []CSSTok) {
 		sb.WriteString(s)
 		toks = append(toks, CSSTok{k, s})
 	}
+	// whitespace inside an attribute selector of a top-level selector is next to punctuation ([ ] = ~= …): it vanishes
+	aws := func() {
+		if g.attrWS && r.Intn(3) == 0 {
+			sb.WriteString(Pick(r, cssWSChars))
+		}
+	}
 	first := r.Intn(5)
 	if nestedStart {
 		first = Pick(r, []int{0, 1, 4}) // nested rules are recognised when they start with an identifier, '&' or '.'
@@ -216,15 +223,19 @@ func (g *cssSheetGen) compound(nestedStart bool) (string, []CSSTok) {
 			add("Hash", "#"+Pick(r, []string{"id", "x1"}))
 		case 2:
 			add("LeftBracket", "[")
+			aws()
 			add("Ident", Pick(r, []string{"href", "data-x", "lang"}))
+			aws()
 			if r.Intn(2) == 0 {
 				op := Pick(r, []CSSTok{{"Delim", "="}, {"IncludeMatch", "~="}, {"DashMatch", "|="}, {"PrefixMatch", "^="}, {"SuffixMatch", "$="}, {"SubstringMatch", "*="}})
 				add(op.Kind, op.Text)
+				aws()
 				if r.Intn(2) == 0 {
 					add("String", Pick(r, []string{"\"v\"", "'a b'", "\"]\""}))
 				} else {
 					add("Ident", "val")
 				}
+				aws()
 			}
 			add("RightBracket", "]")
 		case 3:
@@ -266,7 +277,9 @@ func (g *cssSheetGen) selector(nested bool) []CSSTok {
 	var want []CSSTok
 	n := 1 + r.Intn(3)
 	for i := 0; i < n; i++ {
+		g.attrWS = !nested
 		s, toks := g.compound(nested && i == 0)
+		g.attrWS = false
 		if i > 0 {
 			switch c := r.Intn(5); {
 			case c == 0: // descendant combinator: whitespace survives as one token
